@@ -220,7 +220,7 @@ Definition panicking_by_contract (op : bytes) : bool :=
              "t.addstd"; "t.substd"; "t.addstd_assign"; "t.substd_assign"; "t.addoff"; "t.suboff";
              "ndt.opadd"; "ndt.opsub"; "ndt.addstd"; "ndt.substd"; "ndt.addstd_assign"; "ndt.substd_assign"; "d8.opaddm"; "d8.opsubm";
              "td.opaddasg"; "td.opsubasg"; "td.sumv"; "ar.opdasg"; "ar.opnasg"; "ar.stdasg"; "ar.zstdasg"; "ar.opzdiffref";
-             "ar.opnoff"; "ar.opzoff"; "z.opmonths"; "z.opdays"; "d8.ndt.opaddm"; "d8.ndt.opsubm"]%string
+             "ar.opnoff"; "ar.opzoff"; "z.opmonths"; "z.opdays"; "d8.ndt.opaddm"; "d8.ndt.opsubm"; "lz.asg"]%string
   (* deprecated panicking constructors / accessors *)
   || any_of op ["ts.tzp"; "ts.tzmsp"; "ts.naive_from"; "ts.ofns"; "ts.naive_ofns";
                 "d.pymd"; "d.pyo"; "d.pisoywd"; "d.pdays"; "d.psucc"; "d.ppred";
@@ -249,7 +249,7 @@ Definition check_value (op : bytes) (args : list val) (out : val) : verdict :=
 Definition judge (op : bytes) (args : list val) (out : val) : verdict :=
   if bad_args out then JSkip
   (* the Local zone and its cache are clock / environment dependent: not in C15's stream *)
-  else if any_of op ["lz.at"; "lz.uat"; "lz.loc"; "lz.uloc"; "lz.sel"; "lz.usel"; "lz.rt"; "lz.urt"; "lz.env"; "lz.conv"; "lc.history"]%string
+  else if any_of op ["lz.at"; "lz.uat"; "lz.loc"; "lz.uloc"; "lz.sel"; "lz.usel"; "lz.rt"; "lz.urt"; "lz.env"; "lz.conv"; "lz.asg"; "lc.history"]%string
   then JSkip
   else match out with
   | VPanic =>
